@@ -139,6 +139,16 @@ def gen_pipeline_case(rng, i, c03_bias=False, many_iters=False):
                 X[r, :] = 0.0
                 X[r, rng.randrange(X.shape[1])] = 3.0
                 label.append('one-gene-cell')
+    sparse = (i % 7 == 5) and normalization == 'raw'
+    if sparse:
+        # sparse cells: zero on most genes, so that some drawn subsets see a
+        # flat (all-zero) profile -> correlation 0 with every leaf, the vote
+        # goes to the first leaf with correlation exactly 0.0
+        for r in range(X.shape[0]):
+            X[r, :] = 0.0
+            for c in rng.sample(range(X.shape[1]), rng.randint(2, 4)):
+                X[r, c] = float(rng.randint(1, 30))
+        label.append('sparse-cells')
     n_min = min(len(v) for v in mp.markers.values())
     u = rng.random()
     if u < 0.2:
@@ -151,12 +161,15 @@ def gen_pipeline_case(rng, i, c03_bias=False, many_iters=False):
         factor = (rng.randint(min(2, n_min - 1), n_min - 1) + 0.5) / n_min
     else:
         factor = rng.uniform(0.3, 1.0)
+    if sparse:
+        factor = min(1.0, rng.choice([2.0, 3.0]) / n_min)
     opts = {
         'bootstrap_factor': factor,
-        'bootstrap_iteration': rng.choice([1, 1, 2, 3, 5, 8, 12])
-        if c03_bias else rng.randint(1, 12),
+        'bootstrap_iteration': (rng.randint(10, 16) if sparse else
+                                rng.choice([1, 1, 2, 3, 5, 8, 12])
+                                if c03_bias else rng.randint(1, 12)),
         'rng_seed': rng.randrange(2 ** 31),
-        'n_runners_up': rng.choice([0, 0, 1, 2, 5]),
+        'n_runners_up': 5 if sparse else rng.choice([0, 0, 1, 2, 5]),
         'n_processors': rng.randint(1, 3),
         'chunk_size': rng.randint(1, 6),
         'normalization': normalization,
@@ -524,6 +537,24 @@ def analyse_run(ctx, sig, case, res, inputs, opts, do_votes=True,
                         for t in sibs:
                             if lo[t] > 0 and t not in [x[0] for x in listed]:
                                 bad = (t, 'not listed')
+                    if bad is None and not truncated:
+                        # the list is not full, so every child with a vote is
+                        # on it: winner + runners-up hold all the votes
+                        tot = sum(eu.whole_votes(pp, iters) or 0
+                                  for _, pp in listed)
+                        if tot != iters:
+                            violation(
+                                'votes/runners-up-incomplete',
+                                'cell %r at node %r: %d runners-up listed of '
+                                '%d requested, yet winner + runners-up hold '
+                                '%d of %d votes: a child with votes is '
+                                'missing from the runner-up lists (%r)'
+                                % (cid, parent,
+                                   len(rec['runner_up_assignment']),
+                                   n_runners, tot, iters, listed),
+                                cell=cid, node=parent, record=rec, genes=g,
+                                subsets=subsets)
+                            return True
                     if bad is not None:
                         violation('votes/tie-inadmissible',
                                   'cell %r at node %r: %r is not possible: '
